@@ -80,6 +80,24 @@ def vlib_raw(module, cfg, tf, env):
     return [r for r in reps if isinstance(r, dict) and r.get("tag") == "L1"], stuck, states
 
 
+def vlib_raw_tag(module, cfg, tf, env, tag):
+    import vlib
+    e = {"TRACE": tf}
+    e.update(env)
+    out = vlib._tlc(module, cfg, 1, extra_env=e, dfs=True, xmx="4g", timeout=3000)
+    reps = parse_printed_json(out)
+    stuck = None
+    for r in reps:
+        if isinstance(r, dict) and r.get("tag") == "STUCK":
+            stuck = r["line"]
+    states, trans = tlc_stats(out)
+    other_err = [x for x in out.splitlines() if x.startswith("Error:") and "Postcondition" not in x]
+    if other_err or states == 0:
+        log(out[-4000:])
+        raise ToolError("TLC trace validation (%s) failed: %s" % (module, other_err[:1]))
+    return [r for r in reps if isinstance(r, dict) and r.get("tag") == tag], stuck, states
+
+
 def record_random(run, tag):
     """Drives the real code with a seeded random history, recording L0 + L1 events."""
     build_harness()
